@@ -608,7 +608,7 @@ var meter *stallMeter
 func TestC40(t *testing.T) {
 	r := mon.Start(t, "C40")
 	defer r.Finish()
-	r.Rule("sequential history = fresh LBClient with 1-4 scripted fake BalancingClients, 20-200 (sometimes ~1000, 95% failing) steps of Do/DoTimeout/DoDeadline with scripted pending values, errors/500s, three HealthCheck kinds, AddClient/RemoveClients (incl. remove-all); each call judged against the (pending+penalty,total)-minimal set of a same-goroutine VerifLBState snapshot. burst = 4-16 goroutines x 40-250 calls with concurrent membership churn; expiry = poll VerifLBState after penalised calls. distinct = (clients, healthcheck, failure rate, pending range, membership ops, cap reached, empty set seen); non-trivial = at least one judged step where the minimal set was a strict subset of the clients")
+	r.Rule("sequential history = fresh LBClient with 1-4 scripted fake BalancingClients, 20-200 (sometimes ~1000, 95% failing) steps of Do/DoTimeout/DoDeadline with scripted pending values, errors/500s, three HealthCheck kinds, AddClient/RemoveClients (incl. remove-all); each call judged against the (pending+penalty,total)-minimal set of a same-goroutine VerifLBState snapshot. burst = 4-16 goroutines x 40-250 calls with concurrent membership churn; near-cap round = fresh LBClient, one client filled to 295-299 penalties sequentially, then 8-16 failing calls parked in HealthCheck on a spin barrier and released by one atomic store, settled penalty read through VerifLBState; expiry = poll VerifLBState after penalised calls. distinct = (clients, healthcheck, failure rate, pending range, membership ops, cap reached, empty set seen); non-trivial = at least one judged step where the minimal set was a strict subset of the clients")
 	r.Assume("ties are broken by LBClient's own per-client total as exposed by VerifLBState (requests that were not penalised); whether a penalised request counts as 'completed' is not judged")
 	r.Assume("LBClient.Clients is non-empty when the LBClient is first used (documented precondition: an empty initial list panics by design and is not exercised); the empty set is reached through RemoveClients")
 	r.Assume("a step during which an expiry timer changed a penalty (second snapshot differs) is not judged; Go timers never fire early (lower bound of the 3s penalty lifetime needs no slack); upper bound uses 6s slack against a stall that is unbounded, and is not judged if the process heartbeat (20 ms ticks) was more than 1 s late in that window")
@@ -695,6 +695,9 @@ func TestC40(t *testing.T) {
 		r.Cases(calls, class, true)
 		r.Event("bursts", 1)
 	})
+	// near-cap rounds run on their own: their spinning goroutines need the cores
+	nNear := r.N(1500, 10_000)
+	runNearCap(r, nSeq+nBurst+nExp+1, nNear)
 	bg.Wait()
 	r.Event("lb_chosen_points", int(chosen.Load()))
 	r.Set("worst_heartbeat_lag_ms", meter.worst().Milliseconds())
@@ -707,5 +710,7 @@ func TestC40(t *testing.T) {
 		r.Require("seq_reached_cap", 1)
 		r.Require("expiry_waits", nExp+1)
 		r.Require("lb_chosen_points", nSeq*20)
+		r.Require("nearcap_rounds", nNear*9/10)
+		r.Require("nearcap_rounds_barrier_complete", nNear/2)
 	}
 }
